@@ -183,8 +183,8 @@ def run(ctx):
                       no_input=True)
         return
 
-    n_dyn = 260 if ctx.quick else 6000
-    n_static = 500 if ctx.quick else 12000
+    n_dyn = 1200 if ctx.quick else 20000
+    n_static = 2500 if ctx.quick else 40000
     cases = []
     stats = {}
     for mode, args in (("single", []), ("gen", [ctx.seed, n_dyn]), ("static", [ctx.seed, n_static])):
@@ -221,9 +221,14 @@ def run(ctx):
     nontrivial = set()
     nviol = [0]
 
+    percat = {}
+
     def viol(obj, summary):
+        # at most 2 reports per kind of failure (the kind = the summary without its numbers), 10 in total
         nviol[0] += 1
-        if nviol[0] <= 6:
+        cat = re.sub(r"\d+", "#", summary)
+        percat[cat] = percat.get(cat, 0) + 1
+        if percat[cat] <= 2 and len(ctx.violations) < 10:
             ctx.violation(obj, summary)
 
     for cs, ml in zip(cases, mlines):
@@ -250,18 +255,21 @@ def run(ctx):
             flat = [f.split() for f in md["FLAT"].split(" | ")] if md["FLAT"] != "FAIL" else None
             struct = [f.split() for f in md["STRUCT"].split(" | ")] if md["STRUCT"] != "FAIL" else None
             dist["static_compared"] += 1
+            static_bad = False
             if flat != impl_code:
                 fi = next((i for i in range(len(impl_code)) if flat is None or i >= len(flat) or flat[i] != impl_code[i]), 0)
                 viol(dict(rep, function=fi, source=" ".join(ops[fi]), impl=" ".join(impl_code[fi]),
                           model=" ".join(flat[fi]) if flat and fi < len(flat) else "FAIL",
                           layer="(i) InstrSeqTransformer::run vs Meter.trun"),
                      "metered instruction stream differs from the model (function %d, cost V%d)" % (fi, ci))
-                continue
-            if struct is None or [drop_empty_else(f) for f in impl_code] != [drop_empty_else(f) for f in struct]:
+                static_bad = True
+            if static_bad:
+                pass
+            elif struct is None or [drop_empty_else(f) for f in impl_code] != [drop_empty_else(f) for f in struct]:
                 viol(dict(rep, impl=[" ".join(f) for f in impl_code], model=md["STRUCT"][:600],
                           layer="(i) structured transformer Meter.mseq vs implementation"),
                      "structured metering model differs from the implementation's output (cost V%d)" % ci)
-                continue
+                static_bad = True
             for f in impl_code:
                 for j, t in enumerate(f):
                     if t == "40":
@@ -290,7 +298,7 @@ def run(ctx):
                 viol(dict(rep, impl={k: inj[k] for k in ("types", "imports", "elems", "exports")}, model=md["MOD"],
                           want_exports=want_exports, layer="(i) Module::inject_metering vs Meter.inject"),
                      "module surgery of inject_metering differs from the model (types/imports/elements/exports)")
-                continue
+                static_bad = True
             # ---- (ii) dynamic
             if "run" not in r:
                 continue
@@ -318,15 +326,17 @@ def run(ctx):
                           model_events=" ".join(me[max(0, k - 8):k + 8]), impl_outcome=run_["out"], model_outcome=mout,
                           metered_code=inj["code"], layer="(ii) recording host vs SemTrace on Meter.inject"),
                      "host event sequence (ticks / account_memory / calls) differs from the model at event %d (cost V%d)" % (k, ci))
-                continue
-            nontrivial.add(key + cfg)
+                dyn_bad = True
+            else:
+                dyn_bad = False
+                nontrivial.add(key + cfg)
             # ---- (iii) budgets
             sm = md["SUM"].split()
             m_ticks, m_work, m_bal, m_srcwork, m_same = sm[0], sm[1], sm[2], sm[3], sm[4]
             m_need = sm[sm.index("NEED") + 1]
             m_bud = {b.split(":")[0]: b.split(":")[1:] for b in sm[sm.index("BUD") + 1:]}
             need = need_of(run_["ev"])
-            if str(need) != run_["need"] or m_need != run_["need"]:
+            if str(need) != run_["need"] or (m_need != run_["need"] and not dyn_bad):
                 viol(dict(rep, need_from_events=need, need_measured=run_["need"], model_need=m_need),
                      "energy consumed differs from the sum of the charges seen by the host")
             if m_bal == "NEG" or (okind == "ok" and (m_ticks != m_work or m_bal != "0")) or m_same != "same" or m_srcwork != m_work:
@@ -341,7 +351,7 @@ def run(ctx):
                 good = (got_ooe == want_ooe and b["prefix"]
                         and (int(b["rem"]) == (0 if want_ooe else B - need))
                         and (want_ooe or b["out"] == run_["out"])
-                        and mb is not None and mb[0] == ("ooe" if got_ooe else "ok") and mb[1] == b["rem"])
+                        and (dyn_bad or (mb is not None and mb[0] == ("ooe" if got_ooe else "ok") and mb[1] == b["rem"])))
                 if not good:
                     viol(dict(rep, budget=b, need=need, model=mb, unbounded_outcome=run_["out"],
                               layer="(iii) InterpreterEnergy under a budget"),
